@@ -753,6 +753,10 @@ func (r *yieldRewriter) rewriteBreakContinues(body *ast.BlockStmt) {
 		inSrcSwitch    = srcSwitchStack.top
 
 		isGeneratedFuncLit = func(f *ast.FuncLit) bool { return f.Type.Func == token.NoPos }
+		inUserFuncLit      = func() bool {
+			top := funcLitStack.top()
+			return top != nil && !isGeneratedFuncLit(top)
+		}
 		isMonadicLoop      = func(call *ast.CallExpr) bool {
 			idx, ok := call.Fun.(*ast.IndexExpr)
 			if !ok {
@@ -787,6 +791,9 @@ func (r *yieldRewriter) rewriteBreakContinues(body *ast.BlockStmt) {
 				r.assert(n.Label == nil, n, "continue with label not supported")
 				return X.Return(r.CallContinue())
 			case token.GOTO:
+				if inUserFuncLit() {
+					return // a closure nested in the yield func is ordinary go code
+				}
 				r.assert(false, n, "goto not supported")
 			case token.FALLTHROUGH:
 				if inSwitch() {
